@@ -126,7 +126,14 @@ def _merge_with_enum(prop1: PropertyProtocol, prop2: PropertyProtocol) -> EnumPr
             class_info = prop2.class_info
         else:
             return PropertyError(detail="can't redefine an enum property with incompatible lists of values")
-        return _merge_common_attributes(evolve(prop1, values=values, class_info=class_info), prop2)
+        merged = evolve(prop1, values=values, class_info=class_info)
+        if prop1.default is not None:
+            # prop1's default was converted against prop1's own enum class, which may not be the one that was kept
+            default = merged.convert_value(prop1.default.raw_value)
+            if isinstance(default, PropertyError):
+                return default
+            merged = evolve(merged, default=default)
+        return _merge_common_attributes(merged, prop2)
 
     # If enum values were specified for just one of the properties, use those.
     enum_prop = prop1 if isinstance(prop1, EnumProperty) else cast(EnumProperty, prop2)
